@@ -62,7 +62,7 @@ def run(pid, tier, seed, njobs=None):
     t0 = time.time()
     verdict = lib.Verdict(pid)
     rng = random.Random(seed)
-    n = njobs or (160 if tier == "quick" else 2500)
+    n = njobs or (160 if tier == "quick" else 900)
     jobs = []
     names = list(gen.configs())
     for i in range(n):
@@ -91,7 +91,7 @@ def run(pid, tier, seed, njobs=None):
         p = project.hb_projection(trace, job, otab)
         byid[p["id"]] = (job, trace, p)
         projected.append(p)
-    v = lib.validate_traces("Trace_HB", projected, "c15", workers=8, timeout=3000)
+    v = lib.validate_traces("Trace_HB", projected, "c15", workers=8, timeout=3000, chunk=300)
     for rid in v["rejected"]:
         job, trace, p = byid[rid]
         d = lib.diagnose_trace("Trace_HB", p, "c15")
